@@ -2,7 +2,7 @@
    update_raw / update_loop are Reader.update_raw / Reader.update of reader.py over a stream with an arbitrary read schedule (Model/Reader.v). *)
 From Coq Require Import List NArith Bool Arith String.
 Import ListNotations.
-Require Import Reader ReaderLemmas.
+Require Import Reader ReaderLemmas ReaderBound.
 
 (* KIND C18_refill_at_most_one_block : U *)
 (* for EVERY reader state, schedule and stream content: one refill moves the stream pointer forward by at most 4096 units *)
@@ -21,6 +21,24 @@ Theorem C18_requests_are_blocks : forall r s, strm r = Some s -> exists got, rea
 Proof. exact l_requests_are_blocks. Qed.
 Eval vm_compute in "ASSUME:C18_requests_are_blocks"%string. Print Assumptions C18_requests_are_blocks.
 
-(* PARTIAL: reader_readahead_bound (stream_pointer <= offset of the highest demanded index + 1 + 2*4096 at every point), token_lookahead_bounded and
+(* KIND C18_text_demand_bound : U *)
+(* the whole refill loop, text streams, EVERY read schedule, content and reader state whose raw buffer is empty: a demand that
+   the buffer already satisfies reads nothing; a demand for n characters with fewer buffered reads fewer than (n - buffered) + 4096
+   characters from the stream (one block of read-ahead at most), unless the stream ends *)
+Theorem C18_text_demand_bound : forall f n r r',
+  (exists s, strm r = Some s /\ is_text s = true) -> rawb r = RawStr [] -> eof r = false -> update_loop f n r = Ok r' ->
+  (n <= List.length (buffer r) -> stream_pointer r' = stream_pointer r) /\
+  (List.length (buffer r) < n -> eof r' = false -> stream_pointer r' - stream_pointer r < (n - List.length (buffer r)) + 4096).
+Proof. exact text_demand_reads_at_most_one_block_more. Qed.
+Eval vm_compute in "ASSUME:C18_text_demand_bound"%string. Print Assumptions C18_text_demand_bound.
+(* KIND C18_text_accounting : U *)
+(* nothing read is lost or duplicated: stream pointer and buffer length grow together (the final NUL sentinel accounts for 1) *)
+Theorem C18_text_accounting : forall f n r r',
+  (exists s, strm r = Some s /\ is_text s = true) -> rawb r = RawStr [] -> eof r = false -> update_loop f n r = Ok r' ->
+  stream_pointer r' + List.length (buffer r) + (if eof r' then 1 else 0) = stream_pointer r + List.length (buffer r').
+Proof. intros f n r r' H1 H2 H3 H4. exact (proj1 (update_loop_text_bound f n r r' H1 H2 H3 H4)). Qed.
+Eval vm_compute in "ASSUME:C18_text_accounting"%string. Print Assumptions C18_text_accounting.
+
+(* PARTIAL: the byte-stream version of the demand bound (bytes vs characters), token_lookahead_bounded and
    lazy_prefix_determinism are not proved; decided by the reader correspondence (stream pointer and read() log after every demand) and the direct run that
    records the stream offset each time a document is delivered.  Generator finalisation (dispose on close) is CPython behaviour, observed only. *)
